@@ -92,7 +92,7 @@ func (d *driver) next() M {
 		case 2:
 			seq = next + 1 + int64(r.Intn(3)) // ahead
 		}
-		to := pick(r, []string{"u1", "u2", "u3", "u4", "u1", "u2", "opchild", "feecollector", l1.BadNotBech32})
+		to := pick(r, []string{"u1", "u2", "u3", "u4", "u1", "u2", "opchild", "feecollector", l1.BadNotBech32, l1.BadSpace})
 		denom := pick(r, []string{"l2/1/d1", "l2/1/d1", "l2/1/d2", "l2/1/d3"})
 		base := map[string]string{"l2/1/d1": "d1", "l2/1/d2": "d2", "l2/1/d3": "d3"}[denom]
 		if r.Intn(12) == 0 {
